@@ -158,6 +158,109 @@ theorem inv_run {s s' : State} (h : Inv s) {tr : List Step} (hs : run s tr = som
     | none => rw [hst] at hs; cases hs
     | some s1 => rw [hst] at hs; exact ih (inv_step h hst) hs
 
+/-! ### exactly once: nothing is duplicated between claim and delivery -/
+
+/-- every message is accepted-or-in-flight exactly as often as it claimed a slot -/
+def CountInv (s : State) : Prop := ∀ m, (s.accepted ++ s.inflight).count m = s.claimed.count m
+
+theorem countInv_init (cap : Nat) (p : Overflow) (c : Consumer) : CountInv (init cap p c) := by
+  intro m; simp [init]
+
+theorem count_le_ofThread (l : List Msg) (m : Msg) : l.count m ≤ (ofThread m.thread l).length := by
+  induction l with
+  | nil => simp [ofThread]
+  | cons x l ih =>
+    unfold ofThread at ih ⊢
+    rw [List.count_cons, List.filter_cons]
+    by_cases hx : x = m
+    · subst hx; simp; exact ih
+    · have : (x == m) = false := by simpa using hx
+      rw [this]
+      by_cases ht : x.thread = m.thread
+      · simp [ht]; omega
+      · simp [ht]; exact ih
+
+theorem count_le_one_of_thread {s : State} (h : Inv s) (m : Msg) : s.inflight.count m ≤ 1 :=
+  Nat.le_trans (count_le_ofThread s.inflight m) (h.one m.thread)
+
+theorem countInv_step {s s' : State} (h : Inv s) (hc : CountInv s) {st : Step}
+    (hs : step s st = some s') : CountInv s' := by
+  cases st with
+  | sendBegin m =>
+    simp only [step, sendBegin] at hs
+    split at hs
+    · cases hs
+    · split at hs
+      · cases hs; exact hc
+      · split at hs
+        · split at hs
+          · cases hs
+          · cases hs; exact hc
+        · cases hs
+          intro x
+          show (s.accepted ++ (s.inflight ++ [m])).count x = (s.claimed ++ [m]).count x
+          rw [← List.append_assoc, List.count_append, List.count_append (l₁ := s.claimed), hc x]
+  | sendEnd m =>
+    simp only [step, sendEnd] at hs
+    split at hs
+    · rename_i hmem
+      cases hs
+      intro x
+      show ((s.accepted ++ [m]) ++ s.inflight.filter (fun y => y != m)).count x = s.claimed.count x
+      rw [← hc x]
+      simp only [List.count_append]
+      by_cases hx : x = m
+      · subst hx
+        have h1 : (s.inflight.filter (fun y => y != x)).count x = 0 := by
+          rw [List.count_eq_zero]; intro hin
+          have := (List.mem_filter.1 hin).2
+          simp at this
+        have h2 : s.inflight.count x = 1 := by
+          have hle := count_le_one_of_thread h x
+          have hpos : 0 < s.inflight.count x := List.count_pos_iff.2 hmem
+          omega
+        simp [h1, h2]
+      · have h1 : (s.inflight.filter (fun y => y != m)).count x = s.inflight.count x := by
+          rw [List.count_filter]; simp [hx]
+        have h2 : [m].count x = 0 := by
+          rw [List.count_eq_zero]; simp [hx]
+        rw [h1, h2]; omega
+    · cases hs
+  | consume =>
+    simp only [step, consume] at hs
+    split at hs
+    · cases hs
+    · cases hs
+    · cases hs; exact hc
+  | seeFlag =>
+    simp only [step, seeFlag] at hs
+    split at hs
+    · cases hs; exact hc
+    · cases hs
+  | seeDisconnected =>
+    simp only [step, seeDisconnected] at hs
+    split at hs
+    · cases hs; exact hc
+    · cases hs
+  | drainEmpty =>
+    simp only [step, drainEmpty] at hs
+    split at hs
+    · cases hs; exact hc
+    · cases hs
+  | setFlag => simp only [step] at hs; cases hs; exact hc
+  | close => simp only [step] at hs; cases hs; exact hc
+
+theorem countInv_run {s s' : State} (h : Inv s) (hc : CountInv s) {tr : List Step}
+    (hs : run s tr = some s') : CountInv s' := by
+  induction tr generalizing s with
+  | nil => simp [run] at hs; subst hs; exact hc
+  | cons st tr ih =>
+    simp only [run] at hs
+    cases hst : step s st with
+    | none => rw [hst] at hs; cases hs
+    | some s1 => rw [hst] at hs; exact ih (inv_step h hst) (countInv_step h hc hst) hs
+
+
 /-! ### quiescent shutdown: nothing in flight, no new send gets a slot -/
 
 /-- nothing is in flight, the accepted list is `A`, and an exited consumer left nothing visible -/
